@@ -389,20 +389,16 @@ def rule_generator(rep):
     joined = " ".join(st)
     m1 = re.search(r"let (?:mut )?(\w+) = BufferReader :: from_first_parameter \( \)", joined)
     m2 = re.search(r"let (?:mut )?(\w+) = BufferReader :: from_second_parameter \( \)", joined)
-    ok9 = False
-    why9 = "entry does not read the selector from the first call parameter / the arguments from the second"
-    if m1 and m2:
-        first, second = m1.group(1), m2.group(1)
-        mr = re.search(r"let (?:mut )?(\w+) = BufferReader \{ ptr : %s \}" % first, joined)
-        if mr:
-            rd = mr.group(1)
-            mlen = re.search(r"let (\w+) = %s \. read :: < u64 > \( \)" % rd, joined)
-            mptr = re.search(r"let (\w+) = %s \. ptr \( \)" % rd, joined)
-            if mlen and mptr:
-                ok9 = joined.index(mlen.group(0)) < joined.index(mptr.group(0)) and mlen.group(1) == sel_len_var and mptr.group(1) == sel_var and \
-                    (not ok5 or second == bufvar)
-                why9 = (f"selector length `{mlen.group(1)}` must be the variable the buckets compare (`{sel_len_var}`), the name pointer `{mptr.group(1)}` taken *after* "
-                        f"the length was read must be the one `meq` uses (`{sel_var}`), and arguments must be decoded from the second parameter (`{second}`)")
+    mr = re.search(r"let (?:mut )?(\w+) = BufferReader \{ ptr : %s \}" % m1.group(1), joined) if m1 else None
+    mlen = re.search(r"let (\w+) = %s \. read :: < u64 > \( \)" % mr.group(1), joined) if mr else None
+    mptr = re.search(r"let (\w+) = %s \. ptr \( \)" % mr.group(1), joined) if mr else None
+    if not (m1 and m2 and mr and mlen and mptr):
+        raise AnalysisError("C11 G9: the entry template's selector-reading prologue has a shape this rule does not understand "
+                            "(expected a BufferReader over from_first_parameter(), a read::<u64>() of the length and a ptr() for the name)")
+    second = m2.group(1)
+    ok9 = joined.index(mlen.group(0)) < joined.index(mptr.group(0)) and mlen.group(1) == sel_len_var and mptr.group(1) == sel_var and (not ok5 or second == bufvar)
+    why9 = (f"selector length `{mlen.group(1)}` must be the variable the buckets compare (`{sel_len_var}`), the name pointer `{mptr.group(1)}` taken *after* "
+            f"the length was read must be the one `meq` uses (`{sel_var}`), and arguments must be decoded from the second parameter (`{second}`)")
     rep.ob("G9-entry-reads-length-then-name", "entry", ok9, GEN, entry_t[0], why9)
     # names blob interpolated into the entry
     mb = re.search(r"let (\w+) = \" " + PH.pattern + r" \" ;", joined) or re.search(r'let (\w+) = "' + PH.pattern + '"', et)
@@ -437,8 +433,9 @@ def rule_caller(rep):
     f = only(mnl, "fn method_name_literal")
     ls = {names[0]: tab.show(init) for _, names, _, init in tab.lets(f["body"]) if names and init is not None}
     exts = [n for n in tab.walk(f["body"]) if n.get("k") == "MethodCall" and n["method"] in ("extend", "extend_from_slice", "push", "append")]
-    ok = len(exts) == 2
-    why = "the selector must be built from exactly two pieces: length, then bytes"
+    if len(exts) != 2:
+        raise AnalysisError("C11 K1: method_name_literal builds the selector in a way this rule does not understand (expected two appends)")
+    ok = True
     if ok:
         first, second = tab.show(exts[0]["args"][0]).lstrip("&"), tab.show(exts[1]["args"][0]).lstrip("&")
         first = ls.get(first, first)
@@ -507,13 +504,39 @@ def rule_caller(rep):
            "the zero contract id of the desugared call must be replaced by the callee's address")
     # ---- K4: std contract_call body -----------------------------------------------------------------------------------------------
     body = " ".join(sw.texts(ctoks, bs, be))
+    btoks = sw.texts(ctoks, bs, be)
     m = re.search(r"let (\w+) = encode \( args \) ;", body)
-    mt = re.search(r"let (\w+) = \( contract_id , asm \( (\w+) : method_name \. ptr \( \) \) \{ \2 : u64 \} , asm \( (\w+) : (\w+) \. ptr \( \) \) \{ \3 : u64 \} ,? \) ;", body)
-    ok4 = bool(m) and bool(mt) and mt.group(4) == m.group(1)
-    rep.ob("K4-call-frame-tuple", "contract_call", ok4, CODEC, ctoks[bs][2], "params must be (contract_id, pointer to the selector, pointer to encode(args)) in this order")
+    # `let <params> = ( e0 , e1 , e2 ) ;` -- split the tuple at top-level commas
+    tup = None
+    for i_, x in enumerate(btoks):
+        if x == "let" and i_ + 3 < len(btoks) and btoks[i_ + 2] == "=" and btoks[i_ + 3] == "(":
+            close_ = sw.match_brace([(None, y, 0) for y in btoks], i_ + 3, "(", ")")
+            elems, cur, depth = [], [], 0
+            for y in btoks[i_ + 4:close_]:
+                if y in "({[":
+                    depth += 1
+                elif y in ")}]":
+                    depth -= 1
+                if y == "," and depth == 0:
+                    elems.append(cur)
+                    cur = []
+                else:
+                    cur.append(y)
+            if cur:
+                elems.append(cur)
+            if len(elems) == 3:
+                tup = (btoks[i_ + 1], elems)
     mc = re.search(r"__contract_call \( & (\w+) , (\w+) , (\w+) , (\w+) \)", body)
-    rep.ob("K4-intrinsic-operands", "contract_call", bool(mc) and bool(mt) and [mc.group(i) for i in (1, 2, 3, 4)] == [mt.group(1), "coins", "asset_id", "gas"], CODEC, ctoks[bs][2],
-           "`__contract_call(&params, coins, asset_id, gas)` operands")
+    if not (m and tup and mc):
+        raise AnalysisError("C11 K4: std contract_call has a shape this rule does not understand (expected `encode(args)`, a 3-tuple of call parameters and a __contract_call)")
+    def root(el):
+        names_ = [y for y in el if re.fullmatch(r"[A-Za-z_]\w*", y) and y not in ("asm", "u64", "ptr", "a", "raw_ptr")]
+        return names_[0] if names_ else "?"
+    roots = [root(el) for el in tup[1]]
+    rep.ob("K4-call-frame-tuple", "contract_call", roots == ["contract_id", "method_name", m.group(1)] and all(".ptr" in "".join(el).replace(" ", "") or i_ == 0 for i_, el in enumerate(tup[1])), CODEC, ctoks[bs][2],
+           f"call parameters must be (contract_id, pointer to the selector, pointer to encode(args)) in this order; found roots {roots}")
+    rep.ob("K4-intrinsic-operands", "contract_call", [mc.group(i) for i in (1, 2, 3, 4)] == [tup[0], "coins", "asset_id", "gas"], CODEC, ctoks[bs][2],
+           f"`__contract_call(&params, coins, asset_id, gas)` operands; found {[mc.group(i) for i in (1, 2, 3, 4)]}")
     mr = re.search(r"decode_from_raw_ptr :: < T > \( (\w+) \)", body)
     mret = re.search(r"let (\w+) = asm \( \) \{ ret : raw_ptr \}", body)
     rep.ob("K4-result-decoded-from-ret", "contract_call", bool(mr) and bool(mret) and mr.group(1) == mret.group(1) and body.index(mc.group(0)) < body.index(mret.group(0)), CODEC, ctoks[bs][2],
